@@ -171,3 +171,24 @@ func VerifC03_EpochTicker() {
 		vnd.Assert(e.sched.Count(prepName) == 1, "C03.ticker.next-epoch-preparation-scheduled")
 	}
 }
+
+// VerifC20_SubscriptionInfosBounded: after a head event in epoch e the stored
+// subscription information covers nothing older than e-1, whatever it held before.
+func VerifC20_SubscriptionInfosBounded() {
+	vstub.SPEChoices = []uint64{4}
+	e := newCtlEnv()
+	cur := uint64(e.ct.Cur)
+	vnd.Assume(cur >= 40 && cur < 1<<30)
+	epoch := phase0.Epoch(cur / 4)
+	for back := 0; back <= 5; back++ {
+		if vnd.Bool("epoch-present") {
+			e.s.subscriptionInfos[epoch+1-phase0.Epoch(back)] = map[phase0.Slot]map[phase0.CommitteeIndex]*beaconcommitteesubscriber.Subscription{}
+		}
+	}
+	e.s.HandleHeadEvent(&apiv1.Event{Data: &apiv1.HeadEvent{Slot: phase0.Slot(cur), Block: phase0.Root{1}}})
+	vnd.Quiesce()
+	for k := range e.s.subscriptionInfos {
+		vnd.Assert(k+1 >= epoch, "C20.subscriptions.nothing-older-than-previous-epoch-after-a-head-event")
+	}
+	vnd.Cover("C20.subscriptions.checked")
+}
